@@ -70,6 +70,36 @@ class SI:
     def __neg__(self):
         return SI(-self.e, self.bits)
 
+    def _inplace(self, o, f, what):
+        o = SI.lift(o, self.bits)
+        r = SI(z3.simplify(f(self.e, o.e)), self.bits)
+        env = xa.ENV
+        if env is not None and not z3.is_int_value(r.e):
+            lo, hi = -(2 ** (self.bits - 1)), 2 ** (self.bits - 1) - 1
+            env.records.append(("no-overflow int%d #%d: in-place %s" % (self.bits, len(env.records), what), "holds",
+                                z3.And(r.e >= lo, r.e <= hi), None, list(env.pc)))
+        elif env is not None:
+            v = r.e.as_long()
+            if not -(2 ** (self.bits - 1)) <= v <= 2 ** (self.bits - 1) - 1:
+                env.records.append(("no-overflow int%d #%d: in-place %s" % (self.bits, len(env.records), what), "holds", z3.BoolVal(False), None, list(env.pc)))
+        return r
+
+    def __iadd__(self, o):
+        return self._inplace(o, lambda a, b: a + b, "add")
+
+    def __isub__(self, o):
+        return self._inplace(o, lambda a, b: a - b, "sub")
+
+    def __imul__(self, o):
+        return self._inplace(o, lambda a, b: a * b, "mul")
+
+    def __ifloordiv__(self, o):
+        o = SI.lift(o, self.bits)
+        env = xa.ENV
+        if env is not None and not (z3.is_int_value(o.e) and o.e.as_long() > 0):
+            env.records.append(("divisor>0 #%d" % len(env.records), "holds", o.e > 0, None, list(env.pc)))
+        return SI(z3.simplify(self.e / o.e), self.bits)
+
     def _cmp(self, o, f):
         o = SI.lift(o, self.bits)
         return xa.SymBool(f(self.e, o.e))
@@ -97,20 +127,95 @@ class SI:
         return "SI(%s:int%d)" % (self.e, self.bits)
 
 
+def _bits_of(dtype, default=64):
+    if dtype is None:
+        return default
+    name = dtype if isinstance(dtype, str) else getattr(dtype, "__name__", str(dtype))
+    digits = "".join(ch for ch in name if ch.isdigit())
+    return int(digits) if digits else default
+
+
+class SIArr:
+    """1-d integer array with a dtype width: element stores are checked to fit the width"""
+
+    def __init__(self, items, bits):
+        self.items = [SI.lift(x, bits) for x in items]
+        self.bits = bits
+        for x in self.items:
+            x.bits = bits
+
+    @property
+    def shape(self):
+        return (len(self.items),)
+
+    def __len__(self):
+        return len(self.items)
+
+    def _fit(self, v, what):
+        v = SI.lift(v, self.bits)
+        env = xa.ENV
+        lo, hi = -(2 ** (self.bits - 1)), 2 ** (self.bits - 1) - 1
+        if env is not None:
+            if z3.is_int_value(v.e):
+                if not lo <= v.e.as_long() <= hi:
+                    env.records.append(("store fits int%d #%d: %s" % (self.bits, len(env.records), what), "holds", z3.BoolVal(False), None, list(env.pc)))
+            else:
+                env.records.append(("store fits int%d #%d: %s" % (self.bits, len(env.records), what), "holds", z3.And(v.e >= lo, v.e <= hi), None, list(env.pc)))
+        return SI(v.e, self.bits)
+
+    def __getitem__(self, i):
+        if isinstance(i, tuple):
+            i = [k for k in i if k is not Ellipsis][-1]
+        return self.items[int(i)]
+
+    def __setitem__(self, i, v):
+        if isinstance(i, tuple):
+            i = [k for k in i if k is not Ellipsis][-1]
+        self.items[int(i)] = self._fit(v, "element %d" % int(i))
+
+    def astype(self, dtype):
+        out = SIArr([], _bits_of(dtype))
+        out.items = [out._fit(x, "astype") for x in self.items]
+        return out
+
+    def copy(self):
+        return SIArr(list(self.items), self.bits)
+
+
+class SISink:
+    """write-only 2-d result array: every store is checked against the dtype width"""
+
+    def __init__(self, bits):
+        self.arr = SIArr([0], bits)
+        self.stores = []
+
+    def __setitem__(self, idx, v):
+        self.stores.append((idx, self.arr._fit(v, "result%s" % (tuple(str(k) for k in idx) if isinstance(idx, tuple) else idx,))))
+
+
 class SINP:
     """the few numpy functions the integer kernels use, on SI scalars (0-d 'arrays')"""
     int64 = "int64"
     int32 = "int32"
+    int16 = "int16"
+    int8 = "int8"
+    uint64 = "int64"
+
+    def arange(self, n, dtype=None):
+        return SIArr(list(range(int(n))), _bits_of(dtype))
 
     def where(self, c, a, b):
         bits = max(getattr(a, "bits", 0), getattr(b, "bits", 0)) or 64
         return SI(z3.If(xa._b(c), SI.lift(a).e, SI.lift(b).e), bits)
 
     def ones(self, shape, dtype=None):
-        return SI(1, 32 if dtype in ("int32",) else 64)
+        return SI(1, _bits_of(dtype))
 
-    def zeros(self, shape, dtype=None):
-        return SI(0, 32 if dtype in ("int32",) else 64)
+    def zeros(self, shape=None, dtype=None):
+        return SI(0, _bits_of(dtype))
+
+    def empty(self, shape, dtype=None):
+        return SISink(_bits_of(dtype, 64))
 
     def minimum(self, a, b):
         a, b = SI.lift(a), SI.lift(b)
@@ -128,21 +233,44 @@ def binom_table(N):
     return f, ax
 
 
-def split_loop(fn):
-    """(pre statements, for-node, post statements, globals) of the first top-level `for` loop of fn"""
+def split_loop(fn, kind=ast.For):
+    """(pre statements, loop node, post statements, globals, arg names) of the first top-level loop of fn"""
     g = getattr(fn, "py_func", fn)
     src = textwrap.dedent(inspect.getsource(g))
     tree = ast.parse(src)
     fdef = tree.body[0]
     body = [s for s in fdef.body if not (isinstance(s, ast.Expr) and isinstance(getattr(s, "value", None), ast.Constant))]
     for k, st in enumerate(body):
-        if isinstance(st, ast.For):
+        if isinstance(st, kind):
             return body[:k], st, body[k + 1:], g.__globals__, [a.arg for a in fdef.args.args]
     raise xa.HarnessError("no top-level for loop in %s" % g.__qualname__)
 
 
+class Returned(Exception):
+    """a `return` was reached in statements executed outside their function"""
+    def __init__(self, value):
+        self.value = value
+
+
+class _ReturnToRaise(ast.NodeTransformer):
+    def visit_Return(self, node):
+        val = node.value if node.value is not None else ast.Constant(value=None)
+        return ast.copy_location(ast.Raise(exc=ast.Call(func=ast.Name(id="_pqverif_Returned", ctx=ast.Load()), args=[val], keywords=[]), cause=None), node)
+
+
 def exec_stmts(stmts, ns, glb):
+    import copy
+    stmts = [_ReturnToRaise().visit(copy.deepcopy(st)) for st in stmts]
+    glb = dict(glb)
+    glb["_pqverif_Returned"] = Returned
     mod = ast.Module(body=list(stmts), type_ignores=[])
     ast.fix_missing_locations(mod)
     exec(compile(mod, "<pqverif loop step>", "exec"), glb, ns)
     return ns
+
+
+def exec_once(body, ns, glb):
+    """execute a loop body exactly once; `break` / `continue` inside it end the iteration"""
+    loop = ast.For(target=ast.Name(id="_pqverif_once", ctx=ast.Store()), iter=ast.Tuple(elts=[ast.Constant(value=0)], ctx=ast.Load()),
+                   body=list(body), orelse=[])
+    return exec_stmts([loop], ns, glb)
